@@ -330,6 +330,13 @@ partial def loop (w : Nat) (h : IO.FS.Stream) (out : IO.FS.Stream) (s : Sys) : I
   else if l.startsWith "glue " then
     out.putStrLn (runGlue ((l.drop 5).toString.splitOn " "))
     loop w h out s
+  else if l.startsWith "palloc " then
+    -- the provider's allocator (what the property-name glue copies into): the sentinel for a
+    -- zero-sized request, otherwise a fresh region of that many writable bytes
+    match (l.drop 7).toString.trimAscii.toString.toNat? with
+    | some 0 => out.putStrLn "sentinel"; loop w h out s
+    | some _ => out.putStrLn "fresh"; loop w h out s
+    | none => out.putStrLn "bad-op"; loop w h out s
   else if l.startsWith "awseq " then
     -- a fixed call sequence through the api crate's closure-taking writers = these provider-level calls;
     -- the answer is the status of the last one
